@@ -53,18 +53,18 @@ inline std::string TimeStr(uint64_t t) {return (t == kNever) ? std::string("neve
 struct GNode {bool alive; int parent; uint64_t w; uint64_t period; std::vector<std::vector<std::string> > cb; GNode() : alive(false), parent(-1), w(kNever), period(0) {}};
 struct GenState
 {
-   std::vector<GNode> g; int roots; uint64_t estNow;
-   GenState() : g((size_t) kMaxId+1), roots(1), estNow(1000000) {}
+   std::vector<GNode> g; int roots; int hi; uint64_t estNow;   // hi: ids 0..hi-1 have been handed out
+   GenState() : g((size_t) kMaxId+1), roots(1), hi(1), estNow(1000000) {}
    bool IsRoot(int n) const {return n < roots;}
    int Depth(int n) const {int d = 0; while(g[(size_t)n].parent >= 0) {n = g[(size_t)n].parent; d++;} return d;}
    int Top(int n) const {while(g[(size_t)n].parent >= 0) n = g[(size_t)n].parent; return n;}
    bool Attached(int n) const {return IsRoot(Top(n));}
    bool InSubtree(int n, int top) const {while(n >= 0) {if (n == top) return true; n = g[(size_t)n].parent;} return false;}   // n == top or below it
-   int Height(int n) const {int h = 0; for (int i=0; i<=kMaxId; i++) if ((g[(size_t)i].alive)&&(i != n)&&(InSubtree(i, n))) h = std::max(h, Depth(i)-Depth(n)); return h;}
-   std::vector<int> Alive(bool nonRootOnly) const {std::vector<int> v; for (int i=0; i<=kMaxId; i++) if ((g[(size_t)i].alive)&&((!nonRootOnly)||(!IsRoot(i)))) v.push_back(i); return v;}
-   int NumAlive() const {int c = 0; for (auto & x : g) if (x.alive) c++; return c;}
+   int Height(int n) const {int h = 0; for (int i=0; i<hi; i++) if ((g[(size_t)i].alive)&&(i != n)&&(InSubtree(i, n))) h = std::max(h, Depth(i)-Depth(n)); return h;}
+   std::vector<int> Alive(bool nonRootOnly) const {std::vector<int> v; for (int i=0; i<hi; i++) if ((g[(size_t)i].alive)&&((!nonRootOnly)||(!IsRoot(i)))) v.push_back(i); return v;}
+   int NumAlive() const {int c = 0; for (int i=0; i<hi; i++) if (g[(size_t)i].alive) c++; return c;}
    void Detach(int n) {g[(size_t)n].parent = -1;}
-   void Destroy(int n) {for (auto & x : g) if ((x.alive)&&(x.parent == n)) x.parent = -1; g[(size_t)n] = GNode();}
+   void Destroy(int n) {for (int i=0; i<hi; i++) {GNode & x = g[(size_t)i]; if ((x.alive)&&(x.parent == n)) x.parent = -1;} g[(size_t)n] = GNode();}
    // (rough) effect of an op performed from inside c's callback; same legality rules as the executor
    void ApplyCb(int c, const std::vector<std::string> & t)
    {
@@ -102,14 +102,15 @@ inline Plan Gen(uint64_t seed)
    p.push_back("cfg prop=C20 roots=" + I(s.roots) + " nodes=" + I(maxNodes) + " depth=" + I(maxDepth) + " faults=" + std::string(faultFree ? "-" : "") + (fEarly ? "e" : "") + (fLate ? "l" : "") + (fJump ? "j" : "")
                + " span=" + U(span) + " cb=" + I(cbPct) + " tie=" + I(tiePct) + " rel=" + I(relPct) + " per=" + I(perPct));
    for (int r=0; r<s.roots; r++) s.g[(size_t)r].alive = true;
+   s.hi = s.roots;
 
    int nextId = s.roots;
    auto genTime = [&](Rng & r, uint64_t & est) -> std::string
    {
-      if (r.pct(12)) {est = kNever; return "never";}
+      if (r.pct(9)) {est = kNever; return "never";}
       if (r.pct(tiePct))
       {
-         std::vector<uint64_t> have; for (auto & x : s.g) if ((x.alive)&&(x.w != kNever)) have.push_back(x.w);
+         std::vector<uint64_t> have; for (int i=0; i<s.hi; i++) {const GNode & x = s.g[(size_t)i]; if ((x.alive)&&(x.w != kNever)) have.push_back(x.w);}
          if (!have.empty()) {est = r.pick(have); return U(est);}
       }
       if (r.pct(relPct))
@@ -130,13 +131,13 @@ inline Plan Gen(uint64_t seed)
    auto pickParent = [&](Rng & r, int forNode, int height) -> int
    {
       std::vector<int> c;
-      for (int i=0; i<=kMaxId; i++) if ((s.g[(size_t)i].alive)&&(i != forNode)&&((forNode < 0)||(!s.InSubtree(i, forNode)))&&(s.Depth(i)+1+height <= maxDepth)) c.push_back(i);
+      for (int i=0; i<s.hi; i++) if ((s.g[(size_t)i].alive)&&(i != forNode)&&((forNode < 0)||(!s.InSubtree(i, forNode)))&&(s.Depth(i)+1+height <= maxDepth)) c.push_back(i);
       return c.empty() ? -1 : r.pick(c);
    };
    auto newNode = [&](Rng & r) -> bool
    {
       if ((nextId > kMaxId)||(s.NumAlive() >= maxNodes)) return false;
-      const int n = nextId++;
+      const int n = nextId++; s.hi = nextId;
       const int par = r.pct(82) ? pickParent(r, -1, 0) : -1;
       s.g[(size_t)n].alive = true; s.g[(size_t)n].parent = par;
       p.push_back("node " + I(n) + " " + I(par));
@@ -166,7 +167,7 @@ inline Plan Gen(uint64_t seed)
       for (int n : s.Alive(false)) {if (wl.pct(70)) doWant(wl, n); if (wl.pct(perPct)) {const uint64_t d = 1 + wl.below((uint32_t) span); s.g[(size_t)n].period = d; p.push_back("period " + I(n) + " " + U(d));}}
    }
 
-   auto attachedList = [&]() -> std::vector<int> {std::vector<int> v; for (int i=0; i<=kMaxId; i++) if ((s.g[(size_t)i].alive)&&(s.Attached(i))) v.push_back(i); return v;};
+   auto attachedList = [&]() -> std::vector<int> {std::vector<int> v; for (int i=0; i<s.hi; i++) if ((s.g[(size_t)i].alive)&&(s.Attached(i))) v.push_back(i); return v;};
    auto pushIncb = [&](int n, const std::vector<std::string> & t)
    {
       s.g[(size_t)n].cb.push_back(t);
@@ -278,6 +279,41 @@ inline Plan Gen(uint64_t seed)
 }
 
 // ----------------------------------------------------------------------------------------------- execution
+#define C20_COUNTERS(X) \
+   X(OPS, "ops") \
+   X(WANTQ, "wantq") \
+   X(WAKE_EXACT, "wake_exact") \
+   X(WAKE_OVERDUE, "wake_overdue") \
+   X(WAKE_IDLE, "wake_idle") \
+   X(SWEEPS_MULTI, "sweeps_multi") \
+   X(F_EARLY, "f.early_wake") \
+   X(F_LATE, "f.late_pulse") \
+   X(F_JUMP, "f.clock_jump") \
+   X(P_NEVER, "p.never_time") \
+   X(P_TIE, "p.tie_times") \
+   X(P_CB_INV, "p.in_callback_invalidate") \
+   X(P_CB_SELF, "p.in_callback_self_invalidate") \
+   X(P_CB_ATTACH, "p.in_callback_attach") \
+   X(P_CB_DETACH, "p.in_callback_detach") \
+   X(P_DEFERRAL, "p.displaced_branch_deferral") \
+   X(P_REPARENT, "p.reparent") \
+   X(P_FLOAT_ATTACH, "p.floating_subtree_attached") \
+   X(P_DESTROY_IN_TREE, "p.destroy_in_tree") \
+   X(P_ORPHANED, "p.orphaned_by_destroy") \
+   X(P_EXACT, "p.exact_boundary") \
+   X(P_EARLY1, "p.early_by_one") \
+   X(P_WANTQ_OLD, "p.wantq_old_time_in_force")
+enum {
+#define X(a, b) K_##a,
+C20_COUNTERS(X)
+#undef X
+   NUM_K};
+static const char * kCtrNames[] = {
+#define X(a, b) b,
+C20_COUNTERS(X)
+#undef X
+};
+
 struct H;
 enum {CAUSE_NONE = 0, CAUSE_NEW, CAUSE_INVALIDATED, CAUSE_MOVED, CAUSE_PULSED};
 static const char * kCauseNames[] = {"none", "never asked", "invalidated", "attached/detached", "pulsed"};
@@ -317,17 +353,20 @@ struct H
    bool inSweep, inRecalc, quiet; uint64_t sweepNo, curT; Node * running;
    std::vector<uint8_t> displaced, onStack; std::vector<uint64_t> rootT; std::vector<int> deferred;
    uint64_t callbacks, sweeps, queries, followups, faultsFired, lastNext;
+   uint64_t ctr[NUM_K]; uint64_t maxNodes, maxAttached, maxDepth, maxPulsed;
 
-   H(const Plan & plan, RunResult & r) : res(r), cfg(plan), nodes((size_t) kMaxId+1, (Node *) NULL), failed(false), inSweep(false), inRecalc(false), quiet(false), sweepNo(0), curT(0), running(NULL),
-      displaced((size_t) kMaxId+1, 0), onStack((size_t) kMaxId+1, 0), callbacks(0), sweeps(0), queries(0), followups(0), faultsFired(0), lastNext(kNever)
+   H(const Plan & plan, RunResult & r) : res(r), cfg(plan), failed(false), inSweep(false), inRecalc(false), quiet(false), sweepNo(0), curT(0), running(NULL),
+      displaced((size_t) kMaxId+1, 0), onStack((size_t) kMaxId+1, 0), callbacks(0), sweeps(0), queries(0), followups(0), faultsFired(0), lastNext(kNever), maxNodes(0), maxAttached(0), maxDepth(0), maxPulsed(0)
    {
+      for (int k=0; k<NUM_K; k++) ctr[k] = 0;
       numRoots = (int) cfg.i("roots", 1); if (numRoots < 1) numRoots = 1; if (numRoots > 8) numRoots = 8;
       rootT.assign((size_t) numRoots, 0);
+      nodes.assign((size_t) numRoots, (Node *) NULL);
       for (int i=0; i<numRoots; i++) nodes[(size_t)i] = new Node(this, i);
    }
    ~H() {for (size_t i=nodes.size(); i>0; i--) delete nodes[i-1];}
 
-   Node * Get(int64_t id) const {return ((id >= 0)&&(id <= kMaxId)) ? nodes[(size_t)id] : NULL;}
+   Node * Get(int64_t id) const {return ((id >= 0)&&((uint64_t) id < nodes.size())) ? nodes[(size_t)id] : NULL;}
    bool IsRoot(const Node * n) const {return n->_id < numRoots;}
    Node * Parent(const Node * n) const {return Get(n->_mparent);}
    // id of the manager-level root n hangs under (per the harness's own record of what it attached where), or -1; depth in edges
@@ -350,8 +389,8 @@ struct H
    // ---- operations (cb != NULL: performed from inside cb's Pulse() callback)
    void NoteTime(const Node * x, uint64_t t)
    {
-      if (t == kNever) {res.stats.inc("p.never_time"); return;}
-      for (const Node * o : nodes) if ((o)&&(o != x)&&((o->_want == t)||((o->_valid)&&(o->_reported == t)))) {res.stats.inc("p.tie_times"); break;}
+      if (t == kNever) {ctr[K_P_NEVER]++; return;}
+      for (const Node * o : nodes) if ((o)&&(o != x)&&((o->_want == t)||((o->_valid)&&(o->_reported == t)))) {ctr[K_P_TIE]++; break;}
    }
    void OpWant(const std::vector<std::string> & t, size_t a, Node * cb)   // t[a] = want|invalidate|wantq
    {
@@ -363,11 +402,11 @@ struct H
       if (!isInv) {NoteTime(x, tm); x->_want = tm;}
       th.u((uint64_t) x->_id); th.u(tm);
       if (g_verbose) fprintf(stderr, "   %s%s node %d -> %s%s\n", cb ? "[in callback] " : "", t[a].c_str(), x->_id, TimeStr(tm).c_str(), keep ? " (keep previous result)" : "");
-      if (isQ) {res.stats.inc("wantq"); return;}
+      if (isQ) {ctr[K_WANTQ]++; return;}
       if (cb)
       {
-         if (x->_valid) {res.stats.inc("p.in_callback_invalidate"); MarkChain(x);}
-         else if (x == cb) res.stats.inc("p.in_callback_self_invalidate");
+         if (x->_valid) {ctr[K_P_CB_INV]++; MarkChain(x);}
+         else if (x == cb) ctr[K_P_CB_SELF]++;
       }
       Unvalidate(x, CAUSE_INVALIDATED);
       x->InvalidatePulseTime(!keep);
@@ -379,11 +418,11 @@ struct H
       if ((x == NULL)||(y == NULL)||(x == y)||(IsRoot(x))||(InSubtree(y, x))) return;
       if ((cb)&&(onStack[(size_t)x->_id])) return;   // the API does not allow moving a node whose PulseAux() is on the call stack
       Node * op = Parent(x);
-      if (op) res.stats.inc("p.reparent");
-      if ((RootOf(x) < 0)&&(RootOf(y) >= 0)) {bool kids = false; for (const Node * o : nodes) if ((o)&&(o->_mparent == x->_id)) kids = true; if (kids) res.stats.inc("p.floating_subtree_attached");}
+      if (op) ctr[K_P_REPARENT]++;
+      if ((RootOf(x) < 0)&&(RootOf(y) >= 0)) {bool kids = false; for (const Node * o : nodes) if ((o)&&(o->_mparent == x->_id)) kids = true; if (kids) ctr[K_P_FLOAT_ATTACH]++;}
       if ((cb)&&(op)) MarkChain(op);
       x->_mparent = y->_id; Unvalidate(x, CAUSE_MOVED);
-      if (cb) {MarkChain(x); res.stats.inc("p.in_callback_attach");}
+      if (cb) {MarkChain(x); ctr[K_P_CB_ATTACH]++;}
       th.u((uint64_t) x->_id); th.u((uint64_t) y->_id);
       if (g_verbose) fprintf(stderr, "   %sattach node %d under %d\n", cb ? "[in callback] " : "", x->_id, y->_id);
       y->PutPulseChild(x);
@@ -394,7 +433,7 @@ struct H
       Node * x = Get(ToI(t[a+1])); if ((x == NULL)||(IsRoot(x))) return;
       Node * op = Parent(x); if (op == NULL) return;
       if ((cb)&&(onStack[(size_t)x->_id])) return;
-      if (cb) {MarkChain(op); res.stats.inc("p.in_callback_detach");}
+      if (cb) {MarkChain(op); ctr[K_P_CB_DETACH]++;}
       x->_mparent = -1; Unvalidate(x, CAUSE_MOVED);
       th.u((uint64_t) x->_id);
       if (g_verbose) fprintf(stderr, "   %sdetach node %d (from %d)\n", cb ? "[in callback] " : "", x->_id, op->_id);
@@ -404,8 +443,8 @@ struct H
    {
       if (t.size() < 2) return;
       Node * x = Get(ToI(t[1])); if ((x == NULL)||(IsRoot(x))) return;
-      if (RootOf(x) >= 0) res.stats.inc("p.destroy_in_tree");
-      for (Node * o : nodes) if ((o)&&(o->_mparent == x->_id)) {o->_mparent = -1; Unvalidate(o, CAUSE_MOVED); res.stats.inc("p.orphaned_by_destroy");}
+      if (RootOf(x) >= 0) ctr[K_P_DESTROY_IN_TREE]++;
+      for (Node * o : nodes) if ((o)&&(o->_mparent == x->_id)) {o->_mparent = -1; Unvalidate(o, CAUSE_MOVED); ctr[K_P_ORPHANED]++;}
       th.u((uint64_t) x->_id);
       if (g_verbose) fprintf(stderr, "   destroy node %d\n", x->_id);
       nodes[(size_t)x->_id] = NULL; delete x;
@@ -413,7 +452,8 @@ struct H
    void OpNode(const std::vector<std::string> & t)
    {
       if (t.size() < 2) return;
-      const int64_t id = ToI(t[1]); if ((id < 0)||(id > kMaxId)||(nodes[(size_t)id])) return;
+      const int64_t id = ToI(t[1]); if ((id < 0)||(id > kMaxId)||(Get(id))) return;
+      if ((size_t) id >= nodes.size()) nodes.resize((size_t) id+1, (Node *) NULL);
       Node * x = new Node(this, (int) id); nodes[(size_t)id] = x;
       Node * y = (t.size() >= 3) ? Get(ToI(t[2])) : NULL;
       th.u((uint64_t) id); th.u(y ? (uint64_t) y->_id : (uint64_t) 999);
@@ -452,8 +492,8 @@ struct H
       else if (n->_reported > curT)         Note("pulsed_early", Desc(n) + " had Pulse() called at " + U(curT) + ", " + ((n->_reported == kNever) ? std::string("never asked for") : U(n->_reported-curT) + " us early"));
       else if (schedTime != n->_reported)   Note("wrong_scheduled_time", Desc(n) + " got GetScheduledTime()=" + TimeStr(schedTime) + " in its Pulse() at " + U(curT));
       else if (callTime != curT)            Note("wrong_scheduled_time", Desc(n) + " got GetCallbackTime()=" + U(callTime) + " but the manager pulsed at " + U(curT));
-      if ((n->_valid)&&(n->_reported == curT)) res.stats.inc("p.exact_boundary");
-      if ((n->_valid)&&(n->_want != n->_reported)) res.stats.inc("p.wantq_old_time_in_force");
+      if ((n->_valid)&&(n->_reported == curT)) ctr[K_P_EXACT]++;
+      if ((n->_valid)&&(n->_want != n->_reported)) ctr[K_P_WANTQ_OLD]++;
       // the request is consumed; what the node answers next: its period, a pending wantq, or "never"
       if (n->_period) n->_want = SatAdd(callTime, n->_period);
       else if (n->_want == n->_reported) n->_want = kNever;
@@ -491,7 +531,9 @@ struct H
          }
          if (n->_reported < mm) {mm = n->_reported; who = n;}
       }
-      res.stats.max("max.nodes", nAll); res.stats.max("max.attached", nAtt); res.stats.max("max.depth", (uint64_t) maxDepth);
+      if (nAll > maxNodes) maxNodes = nAll;
+      if (nAtt > maxAttached) maxAttached = nAtt;
+      if ((uint64_t) maxDepth > this->maxDepth) this->maxDepth = (uint64_t) maxDepth;
       if (mn != mm) Fail("root_time_not_min", "the manager was told to wake at " + TimeStr(mn) + " but the minimum over the " + U(nAtt) + " attached nodes' requested times is " + TimeStr(mm) + (who ? " (" + Desc(who) + ")" : std::string()));
       th.u(0x52); th.u(mn);
       if (g_verbose) fprintf(stderr, "   recalculated at %llu: next pulse %s\n", (unsigned long long) now, TimeStr(mn).c_str());
@@ -520,8 +562,8 @@ struct H
          if (Excused(n)) deferred.push_back(n->_id);
          else Fail("due_node_not_pulsed", Desc(n) + " is attached and due but its Pulse() did not run in the sweep at " + U(rootT[(size_t)rt]) + (beQuiet ? " (the sweep following a deferral)" : ""));
       }
-      res.stats.max("max.pulsed_in_one_sweep", ran);
-      if (ran >= 2) res.stats.inc("sweeps_multi");
+      if (ran > maxPulsed) maxPulsed = ran;
+      if (ran >= 2) ctr[K_SWEEPS_MULTI]++;
    }
    void OpWake(int64_t delta)
    {
@@ -534,19 +576,19 @@ struct H
       const uint64_t t1 = std::max(target, before+1);
       if (finite)
       {
-         if (t1 < next) {res.stats.inc("f.early_wake"); faultsFired++; if (t1+1 == next) res.stats.inc("p.early_by_one");}
-         else if ((delta > 0)&&(target > before+1)) {res.stats.inc("f.late_pulse"); faultsFired++;}
-         else if (t1 == next) res.stats.inc("wake_exact");
-         else res.stats.inc("wake_overdue");
+         if (t1 < next) {ctr[K_F_EARLY]++; faultsFired++; if (t1+1 == next) ctr[K_P_EARLY1]++;}
+         else if ((delta > 0)&&(target > before+1)) {ctr[K_F_LATE]++; faultsFired++;}
+         else if (t1 == next) ctr[K_WAKE_EXACT]++;
+         else ctr[K_WAKE_OVERDUE]++;
       }
-      else res.stats.inc("wake_idle");
+      else ctr[K_WAKE_IDLE]++;
       Sweep(false);
       if (!deferred.empty())
       {
          // the relaxation: displaced due nodes must make the manager come straight back (next time <= now) and run in the very next sweep,
          // in which the harness performs no in-callback operations (they stay registered), so nothing can be displaced again
          const std::vector<int> d = deferred;
-         res.stats.inc("p.displaced_branch_deferral", d.size()); followups++;
+         ctr[K_P_DEFERRAL] += d.size(); followups++;
          const uint64_t next2 = Recalc();
          if (next2 > g_simNowUs) Fail("due_node_not_pulsed", U(d.size()) + " due node(s) were passed over in the sweep at " + U(t1) + " (first: node " + I(d[0]) + ") yet the manager is told to sleep until " + TimeStr(next2) + ", now is " + U(g_simNowUs));
          Sweep(true);
@@ -557,7 +599,7 @@ struct H
    {
       const uint64_t room = (g_simNowUs < kClockCap) ? (kClockCap - g_simNowUs) : 0;
       SimClockAdvance(std::min(dt, room));
-      res.stats.inc("f.clock_jump"); faultsFired++;
+      ctr[K_F_JUMP]++; faultsFired++;
    }
 
    void Finish()
@@ -565,7 +607,9 @@ struct H
       Stats & st = res.stats;
       st.inc("sweeps", sweeps); st.inc("callbacks", callbacks); st.inc("queries", queries); st.inc("followup_sweeps", followups);
       st.inc((faultsFired > 0) ? "runs_with_faults" : "runs_fault_free");
-      if (numRoots > 1) st.inc("p.multi_root");
+      st.inc("p.multi_root", (numRoots > 1) ? 1 : 0);
+      for (int k=0; k<NUM_K; k++) if ((ctr[k])||(kCtrNames[k][1] == '.')) st.inc(kCtrNames[k], ctr[k]);   // probes and fault kinds are reported even at 0
+      st.max("max.nodes", maxNodes); st.max("max.attached", maxAttached); st.max("max.depth", maxDepth); st.max("max.pulsed_in_one_sweep", maxPulsed);
       res.hash = th.h;
       res.nontrivial = (callbacks >= 1)&&(sweeps >= 2);
       res.simMicros = g_simNowUs - g_simStartUs;
@@ -590,7 +634,7 @@ inline void Exec(const Plan & plan, RunResult & res)
          WatchdogArm(0);
          h.th.s(line);
          if (g_verbose) fprintf(stderr, "op %zu: %s   (clock %llu)\n", opIdx, line.c_str(), (unsigned long long) g_simNowUs);
-         res.stats.inc("ops");
+         h.ctr[K_OPS]++;
               if (t[0] == "node")    h.OpNode(t);
          else if (t[0] == "attach")  h.OpAttach(t, 0, NULL);
          else if (t[0] == "detach")  h.OpDetach(t, 0, NULL);
